@@ -63,18 +63,17 @@ impl StringExpression {
                 .ok_or_else(|| StringError::invalid("unable to find `[` delimiter"))
                 .and_then(|indice| {
                     let length = 2 + indice;
-                    let start = if string
-                        .get(length..length + 1)
-                        .filter(|char| char == &"\n")
-                        .is_some()
-                    {
-                        length + 1
-                    } else {
-                        length
-                    };
                     string
-                        .get(start..string.len() - length)
-                        .map(str::to_owned)
+                        .get(length..string.len() - length)
+                        .map(|content| {
+                            // the first line break is skipped and, like Lua does, each
+                            // `\r\n` sequence counts as a single `\n`
+                            content
+                                .strip_prefix("\r\n")
+                                .or_else(|| content.strip_prefix('\n'))
+                                .unwrap_or(content)
+                                .replace("\r\n", "\n")
+                        })
                         .ok_or_else(|| StringError::invalid(""))
                 })
                 .map(Self::from_value);
